@@ -3,7 +3,7 @@ import re
 from . import secretlib, textgen
 from .textcommon import TEXT_MODEL_DEPS as MODEL_DEPS, TEXT_TRUSTED as TRUSTED_BASE, TEXT_ASSUMPTIONS as ASSUMPTIONS  # noqa
 
-COQ_DEPS = ["lib/Str.v", "lib/Rx.v", "lib/RxFacts.v", "lib/RxSub.v", "gen/G_rx.v", "gen/G_text_consts.v", "model/TextModel.v", "model/JunModel.v", "model/JunProofs.v", "model/TextProofs.v", "model/TextProofs2.v", "model/Findings.v", "model/EncProofs.v"]
+COQ_DEPS = ["lib/Str.v", "lib/Rx.v", "lib/RxFacts.v", "lib/RxSub.v", "gen/G_rx.v", "gen/G_text_consts.v", "model/TextModel.v", "model/JunModel.v", "model/JunProofs.v", "model/TextProofs.v", "model/TextProofs2.v", "model/Findings.v", "model/EncProofs.v", "lib/PyLib.v", "gen/G_fn_sir.v", "refine/RefEncl.v"]
 RULE = ("every single-secret template of the corpus x every format class (type 7 with all salts 0-15, md5-crypt salt lengths 1-8, all 65 $9$ salt characters, sha512, numeric, hex, text) x enclosing-text combinations x indentation; "
         "replacement read back from the output by position and decoded with independent decoders; non-trivial = a distinct (template, class, variant, enclosing) combination")
 
@@ -76,6 +76,12 @@ def run(ctx):
             cases.append(textgen.pipe([l9, lc] if order == "juniper-first" else [lc, l9], flags="p", salt="s"))
             metas.append(("hist", cls, order, s, tpl))
     m, i = ctx.correspond(cases, project=lambda c, o: textgen.norm(o), label="secrets")
+    # the function GENERATED from _extract_enclosing_text against the real one: all strings over the enclosing characters and a filler up to length 5/6, and longer random ones
+    import itertools
+    alpha = ["'", '"', "\\", " ", "[", "]", "{", "}", ";", ",", "x"]
+    encl = ["".join(t) for n in range(0, 4 if q else 5) for t in itertools.product(alpha, repeat=n)]
+    encl += ["".join(rng.choice(alpha) for _ in range(rng.randrange(5, 40))) for _ in range(200 if q else 5000)]
+    ctx.correspond([["genc", v] for v in encl], label="generated-code")
     nt = 0
     for c, out, ms in zip(cases, i, metas):
         if ms is not None and ms[0] == "hist":
